@@ -462,7 +462,46 @@ class StreamResult:
         self.samples = []
         self.distribution = {}
         self.model_compared = 0
+        self.impl_errors = 0
         self.exhaustive = False
+
+
+class SafeCall:
+    """runs the implementation on one case; an exception (the code under test no longer has the shape the harness
+    drives, or fails in a way the harness did not foresee) becomes an observation instead of ending the check"""
+
+    def __init__(self, func):
+        self.func = func
+
+    def __call__(self, case):
+        import signal
+        limit = int(os.environ.get("VERIF_CASE_TIMEOUT_S", "120"))
+
+        def on_alarm(signum, frame):
+            raise TimeoutError(f"the implementation did not finish this case within {limit} s")
+        old = None
+        try:
+            old = signal.signal(signal.SIGALRM, on_alarm)
+            signal.alarm(limit)
+        except (ValueError, OSError):     # not in the main thread: no alarm
+            old = None
+        try:
+            return self.func(case)
+        except Exception as exc:  # noqa
+            import traceback
+            return {"__impl_error__": f"{type(exc).__name__}: {exc}"[:300], "where": traceback.format_exc()[-600:]}
+        finally:
+            if old is not None:
+                signal.alarm(0)
+                signal.signal(signal.SIGALRM, old)
+
+
+def _guard(kind, fn, *args):
+    """(ok?, value): oracle/compare/classify must not end the check either"""
+    try:
+        return True, fn(*args)
+    except Exception as exc:  # noqa
+        return False, f"{kind} could not judge this observation: {type(exc).__name__}: {exc}"[:300]
 
 
 def evaluate_stream(stream: Stream, cases, want_samples=3):
@@ -470,10 +509,11 @@ def evaluate_stream(stream: Stream, cases, want_samples=3):
     cases = list(cases)
     if not cases:
         return res
+    impl = SafeCall(stream.impl)
     if stream.parallel:
-        observations = pmap(stream.impl, cases)
+        observations = pmap(impl, cases)
     else:
-        observations = [stream.impl(c) for c in cases]
+        observations = [impl(c) for c in cases]
     kept = [(c, canon(o)) for c, o in zip(cases, observations) if o is not None]
     res.evaluations = len(kept)
     # model
@@ -490,13 +530,23 @@ def evaluate_stream(stream: Stream, cases, want_samples=3):
                 predicted[i] = canon(stream.model_obs(c, answers[start:start + count]))
     seen = set()
     for (c, o), pred in zip(kept, predicted):
+        if isinstance(o, dict) and "__impl_error__" in o:
+            # the implementation could not be driven on this case: the correspondence is broken here
+            res.mismatches.append((c, o, pred))
+            res.impl_errors += 1
+            continue
         if pred is not None:
             res.model_compared += 1
-            same = stream.compare(c, o, pred) if stream.compare else (o == pred)
-            if not same:
-                res.mismatches.append((c, o, pred))
+            ok, same = _guard("compare", stream.compare, c, o, pred) if stream.compare else (True, o == pred)
+            if not ok or not same:
+                res.mismatches.append((c, o if ok else {"__harness__": same, "obs": o}, pred))
+                if not ok:
+                    continue
         if stream.oracle is not None:
-            verdict = stream.oracle(c, o)
+            ok, verdict = _guard("oracle", stream.oracle, c, o)
+            if not ok:
+                res.mismatches.append((c, {"__harness__": verdict, "obs": o}, pred))
+                continue
             if verdict:
                 if isinstance(verdict, tuple):
                     message, signature = verdict
@@ -504,9 +554,11 @@ def evaluate_stream(stream: Stream, cases, want_samples=3):
                     message, signature = verdict, {}
                 res.failures.append((c, o, message, signature))
         if stream.classify is not None:
-            for label in stream.classify(c, o):
+            ok, labels = _guard("classify", stream.classify, c, o)
+            for label in (labels if ok else ["unclassified"]):
                 res.distribution[label] = res.distribution.get(label, 0) + 1
-        nontriv = stream.nontrivial(c, o) if stream.nontrivial else True
+        ok, nontriv = _guard("nontrivial", stream.nontrivial, c, o) if stream.nontrivial else (True, True)
+        nontriv = bool(nontriv) if ok else False
         if nontriv:
             k = case_key(c)
             if k not in seen:
@@ -524,11 +576,13 @@ def shrink_case(stream: Stream, case, still_bad, budget=400):
         return case
     current = case
     improved = True
+    stop_at = time.time() + float(os.environ.get("VERIF_SHRINK_S", "120"))
     while improved and budget > 0:
         improved = False
         for cand in stream.shrink(current):
             budget -= 1
-            if budget <= 0:
+            if budget <= 0 or time.time() > stop_at:
+                budget = 0
                 break
             try:
                 if still_bad(cand):
